@@ -111,6 +111,19 @@ func runC09(c *Ctx) {
 		if m > 1<<29 {
 			spell = r.Intn(2) // congruent spellings k*M would leave the assembler's 32 bits (and, for the largest cores, 64 bits)
 		}
+		asm32 := false
+		if m > 1<<31 && r.Chance(1, 2) {
+			// fields whose 32-bit spelling exists (v < 2^31 or v >= M-2^31), the extremes included: such a text is within
+			// the assembler's number range although the core is not
+			pick := func() int {
+				return []int{0, 1, 1<<31 - 1, 1<<31 - 2, r.Intn(1 << 31), m - 1, m - (1 << 31), m - (1 << 31) + 1, m - 1 - r.Intn(1<<31)}[r.Intn(9)]
+			}
+			for i := range code {
+				code[i].A, code[i].B = pick(), pick()
+			}
+			spell, asm32 = 4, true
+			c.Inc("huge_core_texts_within_32_bit_spelling")
+		}
 		lines := asm.PrintLoadFile(code, start, d, m, spell, r)
 		// perturbation sets: the canonical text, single perturbations, and random products
 		set := 0
@@ -130,7 +143,7 @@ func runC09(c *Ctx) {
 		c.Set("forms_covered", fmt.Sprintf("%d|%d", d, formOf(code[0])))
 		c.Set("perturbation_sets", fmt.Sprint(set))
 		readers := []string{"loader", "assembler"}
-		if m > 1<<31 {
+		if m > 1<<31 && !asm32 {
 			readers = readers[:1] // the assembler's numbers are 32-bit (C07): fields of such cores are beyond it
 		}
 		for _, reader := range readers {
